@@ -504,17 +504,22 @@ pub struct HugeCase {
     pub extra: u16,
     pub rc: bool,
     pub repeat_mask: bool,
+    /// the boundary that is scanned: base 2^20 (false) or base 2^16 (true; a contig of 2^16 + 300.. bases)
+    #[serde(default)]
+    pub at_64k: bool,
 }
 
 fn huge_strategy() -> BoxedStrategy<HugeCase> {
-    (any::<u64>(), 0u8..4, 0u16..3000, any::<bool>(), prop::bool::weighted(0.3))
-        .prop_map(|(seed, k_sel, extra, rc, repeat_mask)| HugeCase { seed, k_sel, extra, rc, repeat_mask })
+    (any::<u64>(), 0u8..4, 0u16..3000, any::<bool>(), prop::bool::weighted(0.3), prop::bool::weighted(0.6))
+        .prop_map(|(seed, k_sel, extra, rc, repeat_mask, at_64k)| HugeCase { seed, k_sel, extra, rc, repeat_mask, at_64k })
         .boxed()
 }
 
 fn huge_materialise(c: &HugeCase) -> (Case, Mat) {
     let k = [15usize, 17, 31, 33][c.k_sel as usize % 4];
-    const B: usize = 1 << 20;
+    let b_: usize = if c.at_64k { 1 << 16 } else { 1 << 20 };
+    #[allow(non_snake_case)]
+    let B = b_;
     let mut x = c.seed | 1;
     let reference: Vec<u8> = (0..B + 300 + c.extra as usize).map(|_| { x = crate::engine::splitmix64(x); model::BASES[(x >> 37) as usize & 3] }).collect();
     // k small samples (the region around base 2^20 only), sample j with substitutions exactly k apart at phase j:
@@ -545,7 +550,7 @@ fn check_huge(hc: &HugeCase, ctx: &Ctx) -> Outcome {
         for (i, (g, x)) in run.seqs.iter().zip(e.seqs.iter()).enumerate() {
             if g != x {
                 let pos = g.iter().zip(x.iter()).position(|(a, b)| a != b).unwrap_or(g.len().min(x.len()));
-                return Err(Outcome::Fail(format!("sample {i}: output (length {}) differs from the model (length {}) first at position {pos} (2^20 {:+}): got {:?} expected {:?}", g.len(), x.len(), pos as i64 - (1i64 << 20), lossy(&g[pos.saturating_sub(10)..(pos + 10).min(g.len())]), lossy(&x[pos.saturating_sub(10)..(pos + 10).min(x.len())]))));
+                return Err(Outcome::Fail(format!("sample {i}: output (length {}) differs from the model (length {}) first at position {pos} (scanned boundary {:+}): got {:?} expected {:?}", g.len(), x.len(), pos as i64 - if hc.at_64k { 1i64 << 16 } else { 1i64 << 20 }, lossy(&g[pos.saturating_sub(10)..(pos + 10).min(g.len())]), lossy(&x[pos.saturating_sub(10)..(pos + 10).min(x.len())]))));
             }
         }
         Ok(())
@@ -554,7 +559,7 @@ fn check_huge(hc: &HugeCase, ctx: &Ctx) -> Outcome {
     match r {
         Err(Outcome::Fail(msg)) => Outcome::Fail(format!("k={} rc={} seed={} contig length={} repeat_mask={}: {msg}", c.k, c.rc, hc.seed, m.reference[0].len(), c.repeat_mask)),
         Err(o) => o,
-        Ok(()) => pass(true, key_of(&(c.k, c.rc, hc.seed, hc.extra, hc.repeat_mask)), vec![if c.k >= 33 { "128bit" } else { "64bit" }]),
+        Ok(()) => pass(true, key_of(&(c.k, c.rc, hc.seed, hc.extra, hc.repeat_mask, hc.at_64k)), vec![if c.k >= 33 { "128bit" } else { "64bit" }, if hc.at_64k { "boundary_2^16" } else { "boundary_2^20" }]),
     }
 }
 
@@ -663,7 +668,7 @@ fn stages(tier: Tier) -> Vec<Box<dyn Stage>> {
     vec![
         gen_stage_show("map", RULE, tier.pick(4000, 48_000), 250, case_strategy, check, show),
         gen_stage_show("large_reference", "generated: a random first contig of 65300-67300 bases plus a second contig of 20-600 bases, or (25%) two real contigs around 65536-65542 contigs of 1-6 bases (content a pure function of content_seed), two samples carrying 1-11 substitutions (half of them placed around concatenated position 65536 and in the second contig), k in {15,17,31,33}, masks; output == model for every sample. Every case non-trivial.", tier.pick(16, 320), 10, large_strategy, check_large, |c| json!({"k_index": c.k_sel % 4, "first_contig": 65_300 + c.extra as usize, "second_contig": c.second_len, "snps": c.snps.len()})),
-        gen_stage_show("huge_contig", "generated: one random contig of 2^20 + 300..3300 bases (content a pure function of the seed); k samples that hold the region around base 2^20 only, sample j with substitutions exactly k apart at phase j, so that every coordinate from 2^20 - 2k to 2^20 + 3k is the middle of a matched window of exactly one sample; k in {15,17,31,33}, both strand modes, with and without --repeat-mask; output == model for every sample. Every case non-trivial.", tier.pick(3, 30), 2, huge_strategy, check_huge, |c| json!({"seed": c.seed, "k_index": c.k_sel % 4, "contig_length": (1usize << 20) + 300 + c.extra as usize, "rc": c.rc, "repeat_mask": c.repeat_mask})),
+        gen_stage_show("huge_contig", "generated: one random contig of B + 300..3300 bases, B = 2^16 (60%) or 2^20 (content a pure function of the seed); k samples that hold the region around base B only, sample j with substitutions exactly k apart at phase j, so that every coordinate from B - 2k to B + 3k is the middle of a matched window of exactly one sample; --threads 1-4; k in {15,17,31,33}, both strand modes, with and without --repeat-mask; output == model for every sample. Every case non-trivial.", tier.pick(8, 48), 2, huge_strategy, check_huge, |c| json!({"seed": c.seed, "k_index": c.k_sel % 4, "contig_length": (if c.at_64k { 1usize << 16 } else { 1usize << 20 }) + 300 + c.extra as usize, "rc": c.rc, "repeat_mask": c.repeat_mask})),
         gen_stage_show("alnwriter", "generated: AlnWriter alone (in-process) on 1-3 contigs with an increasing list of (contig, position, symbol) matches incl. ambiguity codes, arbitrary repeat coordinates and the ambiguity mask; output == union-of-windows model. Non-trivial: >=2 matches.", tier.pick(40_000, 800_000), 1500, writer_strategy, check_writer, |c| json!({"k": c.k, "contig_lengths": c.contigs.iter().map(|x| x.len()).collect::<Vec<_>>(), "matches": c.matches.len(), "repeats": c.repeats.len()})),
     ]
 }
